@@ -223,7 +223,13 @@ func genDataset(r *vk.RNG, format string, n int, t0 int64) *Dataset {
 			}
 			b, _ := json.Marshal(doc)
 			line = string(b)
-			d.packed[line] = packedInfo{entry: entry, labels: pl}
+			if r.Chance(1, 6) {
+				// a packed object that breaks AFTER its _entry (cut short, or a key that is no label
+				// name): unpack fails, and a failed stage leaves the line as it was
+				line = `{"_entry":` + strconv.Quote(entry) + vk.Pick(r, []string{`,"job":"api"`, `,"0job":"api"}`, `,"job":}`, `,"job":"api",`})
+			} else {
+				d.packed[line] = packedInfo{entry: entry, labels: pl}
+			}
 		default: // plain
 			words := []string{id}
 			k := r.Range(1, 5)
